@@ -62,6 +62,8 @@ def gen_exec(r, xid, tp, prof, raw=False):
         e = r.choice(live)
         # AF_UNIX SEQPACKET never reports a transient error on a healthy connection: no errno injection there
         inj = r.choice(ERRNOS) if (r.random() < p["inj"] and not seq) else 0
+        if inj == 32 and alive[3 - e]:
+            inj = 104   # EPIPE is only ever answered once the peer is gone
         if k == "send":
             ln = pick_len(r, p, stream)
             wc = pick_credit(r, ln + 8)
@@ -77,6 +79,8 @@ def gen_exec(r, xid, tp, prof, raw=False):
             if seq and wc > 0:
                 wc = -1
             inj2 = r.choice(ERRNOS) if (r.random() < p["inj"] / 2 and not seq) else 0
+            if inj2 == 32 and alive[3 - e]:
+                inj2 = 110
             if inj == 32:
                 inj = r.choice(RD_ERRNOS)
             lines.append("r %d %d %d %d %d %d" % (e, cap, rc, inj, wc, inj2))
@@ -108,28 +112,37 @@ def gen_exec(r, xid, tp, prof, raw=False):
 
 
 def gen_raw_exec(r, xid, tp):
-    """Hostile peer: endpoint 2 is a raw TCP socket writing arbitrary frames."""
+    """Hostile peer: endpoint 2 is a raw TCP socket.  It writes well-formed frames, then possibly one malformed
+    frame (illegal length), a truncated frame or garbage, in arbitrary pieces, and possibly dies."""
     lines = ["X %d %s raw" % (xid, tp)]
     nfr = r.randint(1, 6)
+    ended = False
     for i in range(nfr):
+        last = i == nfr - 1
         x = r.random()
-        if x < 0.55:
+        if x < 0.6 or not last and x < 0.8:
             h = r.choice([1, 2, 3, 5, 8, 100, 1000, 65535, r.randint(1, 300)])
+            lines.append("W h %d" % h)
+            if last and r.random() < 0.3:
+                lines.append("W p %d" % r.randint(0, h - 1))   # truncated final frame
+                ended = True
+            else:
+                lines.append("W p %d" % h)
         else:
-            h = r.choice([0, 65536, 65537, 70000, 2 ** 31 - 1, 2 ** 31, 2 ** 32 - 1, 16777216, r.randint(65536, 2 ** 32 - 1)])
-        lines.append("W h %d" % h)
-        if r.random() < 0.85:
-            pl = min(h, 66000)
-            if r.random() < 0.2:
-                pl = r.randint(0, max(0, min(h, 66000)))
-            lines.append("W p %d" % pl)
+            h = r.choice([0, 0, 65536, 65537, 70000, 2 ** 31 - 1, 2 ** 31, 2 ** 32 - 1, 16777216, r.randint(65536, 2 ** 32 - 1)])
+            lines.append("W h %d" % h)
+            if r.random() < 0.7:
+                lines.append("W p %d" % r.randint(0, 300))
+            if r.random() < 0.3:
+                lines.append("W g %d %d" % (r.randint(1, 300), r.randint(1, 1000)))
+            ended = True
         # transmit in pieces, interleaved with receives
         for _ in range(r.randint(1, 4)):
             lines.append("w %d" % r.choice([-1, 1, 2, 3, 4, 5, 7, 100, r.randint(1, 70000)]))
             for _ in range(r.randint(0, 3)):
                 lines.append("r 1 %d %d 0 -1 0" % (r.choice([1, 4, 100, 65535, 70000]), pick_credit(r, 80)))
-        if r.random() < 0.15:
-            lines.append("W g %d %d" % (r.randint(1, 300), r.randint(1, 1000)))
+        if ended:
+            break
     lines.append("w -1")
     for _ in range(r.randint(2, 6)):
         lines.append("r 1 %d -1 0 -1 0" % r.choice([1, 100, 65535]))
